@@ -548,3 +548,91 @@ def memo_rule(ctx: Ctx, rule):
 for _prop, _rid in (("C06", "C06.R7"), ("C01", "C01.R9"), ("C10", "C10.R5"), ("C13", "C13.R6"), ("C07", "C07.R6"), ("C02", "C02.R7")):
     RULES.setdefault(_prop, []).append(Rule(_rid, "kind-dispatching encoders are never memoised by value equality", 5, memo_rule, "F-TAINT",
                                             "1, 1.0 and True keep their own encodings whatever was encoded before"))
+
+
+# ------------------------------------------------------------------------------------------ C06.R8 escaping character classes
+PN_CHARS_ESC = set("='(),-:;[].")
+
+
+def _class_chars(pattern: str):
+    """Character set of a pattern that is a single character class (optionally wrapped in one group); None for any other shape."""
+    import re._parser as sre  # stdlib regex parser (sre_parse)
+
+    try:
+        tree = sre.parse(pattern)
+    except Exception:
+        return None
+    items = list(tree)
+    while len(items) == 1 and str(items[0][0]) == "SUBPATTERN":
+        items = list(items[0][1][3])
+    if len(items) != 1:
+        return None
+    op, arg = items[0]
+    if str(op) == "LITERAL":
+        return {chr(arg)}
+    if str(op) != "IN":
+        return None
+    out = set()
+    for o, a in arg:
+        if str(o) == "LITERAL":
+            out.add(chr(a))
+        elif str(o) == "RANGE":
+            out |= {chr(c) for c in range(a[0], a[1] + 1)}
+        else:
+            return None
+    return out
+
+
+def c06_r8(ctx: Ctx, rule):
+    res = RuleResult()
+    probe = _class_chars(r"[='(),-:;\[\].]")
+    if probe is None or "5" not in probe or "/" not in probe or _class_chars(r"([='(),:;\[\]])") != set("='(),:;[]"):
+        raise AnalysisError("regex character-class reader self-check failed")
+    res.ob("character-class reader: the built-in example `[='(),-:;\\[\\].]` is read as %d characters (the `,-:` range included)" % len(probe))
+    # functions on the PROV-N path of a qualified name: provn_representation of the identifier classes and what get_provn calls in its module
+    funcs = [q for q, fi in ctx.p.functions.items() if fi.name == "provn_representation" or fi.name == "get_provn" or fi.name.startswith("encoding_provn")]
+    closure = []
+    for q in funcs:
+        for q2 in ctx.helper_closure(q, 2):
+            if q2 not in closure:
+                closure.append(q2)
+    n = 0
+    for q in closure:
+        fi = ctx.fn(q)
+        for c in calls_in(fi.node):
+            if call_name(c) not in ("sub", "subn"):
+                continue
+            # pattern: re.sub(P, R, s)  or  COMPILED.sub(R, s)
+            if isinstance(c.func, ast.Attribute) and (dotted(c.func.value) or "") == "re":
+                pat_e, rep_e = (c.args + [None, None])[:2]
+            else:
+                pat_e, rep_e = c.func.value if isinstance(c.func, ast.Attribute) else None, (c.args + [None])[0]
+            pat = None
+            if isinstance(pat_e, ast.Constant) and isinstance(pat_e.value, str):
+                pat = pat_e.value
+            elif pat_e is not None and dotted(pat_e):
+                r = ctx.p.resolve_dotted(fi.module, pat_e)
+                if r and r[0] == "var":
+                    for a in ctx.p.units[r[1]].tree.body:
+                        if isinstance(a, ast.Assign) and any(isinstance(t, ast.Name) and t.id == r[2] for t in a.targets) and isinstance(a.value, ast.Call) and call_name(a.value) == "compile" and a.value.args and isinstance(a.value.args[0], ast.Constant):
+                            pat = a.value.args[0].value
+            adds_backslash = isinstance(rep_e, ast.Constant) and isinstance(rep_e.value, str) and rep_e.value.startswith("\\")
+            if pat is None or not adds_backslash:
+                continue
+            n += 1
+            chars = _class_chars(pat)
+            if chars is None:
+                res.ob("%s: escaping substitution with pattern %r is not a single character class: not decided" % (short(q) if q.count(".") > 2 else q, pat))
+                continue
+            extra = sorted(chars - PN_CHARS_ESC)
+            res.ob("%s: backslash-escapes %d characters; all of them PN_CHARS_ESC: %s" % (short(q) if q.count(".") > 2 else q, len(chars), not extra))
+            if extra:
+                res.fail(rule.id, "escapes-outside-PN_CHARS_ESC::%s" % q, ctx.loc(q, c),
+                         "%s backslash-escapes %s, which PROV-N does not allow to be escaped (pattern %r; an unintended range?)" % (q.rsplit(".", 2)[-2] + "." + fi.name, "".join(extra)[:24], pat),
+                         "a qualified-name value ex:Type1 is printed 'ex:Type\\1': not a PROV-N qualified name")
+    res.ob("backslash-escaping regex substitutions on the PROV-N path of names: %d" % n, nontrivial=False)
+    return res
+
+
+RULES.setdefault("C06", []).append(Rule("C06.R8", "a backslash-escaping substitution on the PROV-N path escapes only PN_CHARS_ESC characters", 1, c06_r8, "F-TAINT",
+                                        "every printed qualified name is a PROV-N qualified name"))
